@@ -254,6 +254,9 @@ func init() {
 			return nil
 		}
 		x.onces[p] = true
+		if x.journalOn {
+			x.journal = append(x.journal, func() { delete(x.onces, p) })
+		}
 		x.call(fr, 0, args[1], nil)
 		return nil
 	})
@@ -744,6 +747,9 @@ func (x *Exec) smap(p Ptr) *Map {
 		x.mapSeq++
 		m = &Map{id: x.mapSeq}
 		x.smaps[p] = m
+		if x.journalOn {
+			x.journal = append(x.journal, func() { delete(x.smaps, p) })
+		}
 	}
 	return m
 }
